@@ -57,6 +57,12 @@ reg("C03",
     "Termination itself is not decided. Known finding: the standard's own algorithm can put a reconstructed formatting element after frameset under html (classifier: the reference tree has the same anomaly).",
     "DESIGN.md §3 C03")
 
+reg("C04",
+    "differential property-based testing across tree builders: generated markup soup parsed by dom / etree / etree-fullTree x namespaceHTMLElements on/off; directly traversed abstract trees must be pairwise equal",
+    "Exploration: 16 biased soup campaigns (table/foster, formatting/adoption, foreign, select, fragments in 45 contexts); all six builder configurations must yield the same flat abstract tree (namespace None == XHTML when namespacing is off; root-element form == html subtree). Non-triviality is measured with the reference tree constructor's trace. Held on everything explored.",
+    "Trees are observed by own traversal (vf/obs.py), not by html5lib walkers. Two known findings are limitations of xml.dom.minidom (colon-bearing attribute / doctype names), modelled exactly by obs.minidom_colon_model.",
+    "DESIGN.md §3 C04")
+
 NOT_APPLICABLE = {}
 
 
